@@ -92,7 +92,12 @@ def generate(tier):
         if tier == "quick" and len(durs) == 3:
             subsets = subsets[::3]
         for start in ("fresh", "continued", "override", "param-changed", "second-cycle", "late"):
-            for sub in subsets if start != "late" else [s for s in subsets if len(s) == 1]:
+            subs_here = subsets
+            if start == "late":
+                subs_here = [s for s in subsets if len(s) == 1]
+            elif tier == "thorough" and len(durs) == 3 and start != "fresh":
+                subs_here = subsets[::3]  # three-step protocols: every grid from a fresh start, every third one otherwise
+            for sub in subs_here:
                 pts = [cand[i] for i in sub]
                 if max(pts) <= 0.0:
                     continue
